@@ -19,6 +19,9 @@ RULES = {
     "R15.5": "at most once (shared with C05 R05.1 / R05.3): the refunding writes cannot be repeated - status := Executed only from "
              "current_status == Passed, status := Rejected only from a stored status that is not Executed / Rejected / Passed, not "
              "passed and expired - so neither Execute nor Close (and hence their refund) can succeed twice on one proposal",
+    "R15.7": "the status Close and Execute act on can be computed: is_passed / is_rejected decide on the documented quantities over "
+             "the documented bases (shared with C04 R04.4 / R04.5) - a rewritten base that can go below zero aborts every later Close, "
+             "Execute and query of the proposal and locks its deposit",
     "R15.6": "the configured deposit is the stored deposit: instantiate stores CONFIG.proposal_deposit = None when the message has "
              "none, else Some(DepositInfo{amount, refund_failed_proposals}) exactly as given (no narrowing, rescaling or "
              "substitution) with the denom validated (native denom unchanged, cw20 address through addr_validate)",
@@ -158,6 +161,7 @@ def run(ctx):
     ctx.floor("R15.3", "refund sites", n_refund, 2)
     ctx.ob("R15.4", "Close refuses stored Rejected (premise)", True, trivial=True, sample={"close_refuses_rejected": close_refuses_rejected})
     check_paid_body(ctx)
+    check_status_functions(ctx)
     from . import C05
     sub = type(ctx)(ctx.pid, ctx.facts, ctx.engine, ctx.tier, ctx.tree_hash)
     C05.run(sub)
@@ -166,6 +170,22 @@ def run(ctx):
         if o.rule in ("R05.1", "R05.3") and "cw3_flex_multisig" in o.key and ("Executed write" in o.key or "Rejected write" in o.key):
             ctx.ob("R15.5", o.key, True if o.status == "discharged" else (None if o.status == "undecided" else False),
                    detail="; ".join(o.details), sites=o.sites, sample=o.sample)
+
+
+def check_status_functions(ctx):
+    """R15.7: Close and Execute can hand the deposit back only if the status they compute exists: the threshold decisions are the
+    documented ones over the documented bases, in unsigned arithmetic that cannot go below zero (shared with C04 R04.4 / R04.5)"""
+    from . import C04
+    sub = type(ctx)(ctx.pid, ctx.facts, ctx.engine, ctx.tier, ctx.tree_hash)
+    C04.run(sub)
+    n = 0
+    for k in sub.order:
+        o = sub.obs[k]
+        if o.rule in ("R04.4", "R04.5") and not o.key.startswith(("anchor", "floor")):
+            n += 1
+            ctx.ob("R15.7", "%s %s" % (o.rule, o.key), True if o.status == "discharged" else (None if o.status == "undecided" else False),
+                   detail="; ".join(o.details), sites=o.sites, sample=o.sample)
+    ctx.floor("R15.7", "threshold decisions examined", n, 4)
 
 
 def is_pull(m, d):
